@@ -1168,7 +1168,7 @@ def FIBER(
 
     if beta_2 == 0 and beta_3 == 0:
         # dispersionless fiber: self-phase modulation in closed form, with the effective length L_eff
-        L_eff = (1 - np.exp(-alpha * length)) / alpha if alpha != 0 else length
+        L_eff = -np.expm1(-alpha * length) / alpha if alpha != 0 else length  # expm1: no cancellation for a tiny alpha*length
         A = A * np.exp(-alpha * length / 2 + 1j * gamma * np.abs(A) ** 2 * L_eff)
         output = optical_signal(A, input.noise)
         output.execution_time = toc()
